@@ -276,3 +276,19 @@ CHECKS["C11"] = {
          "instrument": [{"file": "pkg/object/httpserver/mux.go", "imports": {"sync/atomic": "vatomic"}}]},
     ],
 }
+
+CHECKS["C13"] = {
+    "level": "exploration",
+    "technique": "deviation-bounded exhaustive enumeration (choice-tree DFS) of specs around a base spec per kind; accepted specs are instantiated and exercised on the real objects",
+    "level_text": "for 10 filter kinds, Pipeline, both resilience kinds and the GlobalFilter / HTTPServer / MQTTProxy specs: every spec within the deviation bound of a base spec (generic deviations generated "
+                  "from the YAML tree: field absent, empty, zero, negative, huge, 0s, unsupported string, flipped bool, empty list/map; plus a hand-written menu of optional fields and cross references) "
+                  "is validated the way the admin API does (supervisor.NewSpec of the enclosing pipeline / object); every accepted spec is created, initialised, serves 6 requests, is inherited and closed; no step may panic",
+    "level_note": "kinds that need an external service to start (Kafka, WasmHost, RemoteFilter, HeaderLookup, etcd-backed basic auth) are out of scope; HTTPServer/MQTTProxy/GlobalFilter specs are only validated, not started (sockets)",
+    "rule": "choice tree: one binary deviation choice per generated deviation (deviation bound = number of changed fields); distinct_nontrivial = distinct (kind, accepted|rejected) classes",
+    "bounds": {"quick": "1 deviation", "thorough": "2 deviations"},
+    "assumptions": [],
+    "units": [
+        {"name": "c13", "pkg": "pkg/zzverif/c13", "test": "TestVerifC13", "hide_tests": [],
+         "inject": [["pkg/zzverif/c13", "harness/common/specs", "c13"]]},
+    ],
+}
